@@ -27,7 +27,7 @@ vars == <<p, ob, os, b, i, s>>
 P == Progs[p]
 Stmts == P.blocks[b].stmts
 AtExit == i = Len(Stmts) + 1
-Range1(k) == IF k = "bool" THEN 0..1 ELSE (-B)..B
+Range1(k) == IF k = "bool" THEN 0..1 ELSE IF k = "arr" THEN {<<UNW, UNW, UNW, UNW>>} ELSE IF k = "arr1" THEN {<<UNW>>} ELSE (-B)..B
 RECURSIVE BoxN(_, _)
 BoxN(kinds, n) == IF n = 0 THEN {<<>>} ELSE {Append(q, v) : q \in BoxN(kinds, n - 1), v \in Range1(kinds[n])}
 Hv(x) == Range1(P.kinds[x])
